@@ -12,7 +12,40 @@ def sh(cmd, cwd, timeout=1500):
     p = subprocess.run(cmd, shell=True, cwd=cwd, env=ENV, capture_output=True, text=True, timeout=timeout)
     return p.returncode, (p.stdout + p.stderr)
 
+def reconfirm(seed, newpatch):
+    """Re-confirms a stored seed against the current /repo HEAD, optionally with a patch ported to it."""
+    d = os.path.join("/verif/seeded", seed)
+    meta = json.load(open(os.path.join(d, "meta.json")))
+    tmp = "/tmp/reseed_" + seed
+    shutil.rmtree(tmp, ignore_errors=True)
+    os.makedirs(tmp)
+    for fn_, rel in meta["demo_files"].items():
+        src = os.path.join(d, fn_)
+        if not os.path.exists(src):
+            src = os.path.join(d, os.path.basename(rel))
+        dst = os.path.join(tmp, "demo", rel)
+        os.makedirs(os.path.dirname(dst), exist_ok=True)
+        shutil.copy(src, dst)
+    shutil.copy(newpatch or os.path.join(d, "patch.diff"), os.path.join(tmp, "patch.diff"))
+    if os.path.exists(os.path.join(d, "notes.md")):
+        shutil.copy(os.path.join(d, "notes.md"), os.path.join(tmp, "notes.md"))
+    if newpatch and not os.path.exists(os.path.join(d, "patch.orig.diff")):
+        shutil.copy(os.path.join(d, "patch.diff"), os.path.join(d, "patch.orig.diff"))
+    sys.argv = [sys.argv[0], meta["property"], tmp, seed] + meta.get("detected_by", [])
+    rc = main()
+    if rc == 0 and newpatch:
+        m2 = json.load(open(os.path.join(d, "meta.json")))
+        m2["ported"] = "patch.diff is the sub-agent's change re-applied by hand to the tree after later fix: commits touched the same lines; the original is patch.orig.diff; re-confirmed with the original demonstration"
+        m2["source"] = meta["source"]
+        m2["summary"] = meta.get("summary", "")
+        m2["needs_to_manifest"] = meta.get("needs_to_manifest", "")
+        json.dump(m2, open(os.path.join(d, "meta.json"), "w"), indent=1)
+    shutil.rmtree(tmp, ignore_errors=True)
+    return rc
+
 def main():
+    if sys.argv[1] == "--reconfirm":
+        return reconfirm(sys.argv[2], sys.argv[3] if len(sys.argv) > 3 else None)
     prop, mutdir, seed = sys.argv[1:4]
     detected = sys.argv[4:]
     wt = "/tmp/cf_" + seed
